@@ -664,6 +664,8 @@ def local_propagation(modname: str, tree: ast.Module, singles: Dict[str, ast.AST
         # N5b first-match loops over a literal table (an extra module constant or a new local): `for k, v in ((k1, v1), ..): if P(k): return v`
         # and `for k, v in TABLE: if P(k): X(v); break` [else: E]  ->  the if / elif chain they stand for
         _unroll_tables(modname, fn, singles, log)
+        if phase == "post":
+            coalesce_loop_targets(modname, fn, log)
 
         changed = True
         guard = 0
@@ -722,6 +724,23 @@ def local_propagation(modname: str, tree: ast.Module, singles: Dict[str, ast.AST
                                 _replace_child(n._np, n, ast.copy_location(acopy(v), n))
                             blk.pop(i)
                             log.append(f"{modname}.{fn.name}: new pure local {name} = {ast.unparse(v)[:30]} folded")
+                            changed = True
+                            break
+                    # an inliner binding that merely renames a caller variable (`text_inl1 = text`): the uses take the variable itself, provided
+                    # the variable is not rebound between the binding and the last of those uses
+                    if phase == "post" and getattr(s, "_inl_temp", False) and isinstance(v, ast.Name) and _is_new_local(modname, fn, name):
+                        from .core import order_index as _oi_
+
+                        oi_ = _oi_(fn)
+                        last_use = max(oi_[id(n_)] for n_ in loads)
+                        src_stores = [oi_[id(n_)] for n_ in _walk_own(fn) if isinstance(n_, ast.Name) and n_.id == v.id and isinstance(n_.ctx, ast.Store)]
+                        in_loop = any(isinstance(a_, (ast.For, ast.While)) for a_ in [blk_owner])
+                        if all(p_ < oi_[id(s)] or p_ > last_use for p_ in src_stores) and not in_loop and _dominates(fn, blk_owner, blk, i, loads):
+                            _with_parents(fn, loads)
+                            for n_ in loads:
+                                n_.id = v.id
+                            blk.pop(i)
+                            log.append(f"{modname}.{fn.name}: inliner alias {name} = {v.id} folded")
                             changed = True
                             break
                     # single-use temporary consumed by the very next statement before anything else is evaluated there
@@ -954,6 +973,27 @@ def _unroll_tables(modname: str, fn: ast.AST, singles: Dict[str, ast.AST], log: 
                 fn.body.remove(drop_local)
             log.append(f"{modname}.{fn.name}: first-match loop over a literal table unrolled at line {loop.lineno}")
     ast.fix_missing_locations(fn)
+
+
+def coalesce_loop_targets(modname: str, fn: ast.AST, log: List[str]) -> None:
+    """`for .., T in X:` whose body starts with `V = T` (T a new name used nowhere else)  ->  `for .., V in X:`"""
+    for loop in [n for n in _walk_own(fn) if isinstance(n, ast.For)]:
+        if not loop.body:
+            continue
+        first = loop.body[0]
+        if not (isinstance(first, ast.Assign) and len(first.targets) == 1 and isinstance(first.targets[0], ast.Name) and isinstance(first.value, ast.Name)):
+            continue
+        T, V = first.value.id, first.targets[0].id
+        tnodes = [n for n in ast.walk(loop.target) if isinstance(n, ast.Name) and n.id == T]
+        uses = [n for n in _walk_own(fn) if isinstance(n, ast.Name) and n.id == T]
+        if len(tnodes) != 1 or len(uses) != 2 or not _is_new_local(modname, fn, T) or any(isinstance(n, ast.Name) and n.id == V for n in ast.walk(loop.target)) \
+                or any(isinstance(n, ast.Name) and n.id == V for n in ast.walk(loop.iter)):
+            continue
+        tnodes[0].id = V
+        loop.body.pop(0)
+        if not loop.body:
+            loop.body.append(ast.copy_location(ast.Pass(), loop))
+        log.append(f"{modname}.{fn.name}: loop target {T} coalesced with {V}")
 
 
 def _pure_elt(e: ast.AST, imp: Dict[str, str]) -> bool:
